@@ -36,12 +36,12 @@ _REAL_DATETIME = _dt
 CURRENT = None  # the World whose seams are active (at most one)
 
 _flow_loaded = False
-fr = base = stream_mod = None
+fr = base = stream_mod = utils_mod = None
 
 
 def load_flow():
     """Import flow.record from VERIF_REPO (default /repo) and install the permanent clock hook."""
-    global _flow_loaded, fr, base, stream_mod
+    global _flow_loaded, fr, base, stream_mod, utils_mod
     if _flow_loaded:
         return fr
     repo = _os.environ.get("VERIF_REPO", "/repo")
@@ -54,11 +54,12 @@ def load_flow():
     import flow.record as _fr
     import flow.record.base as _base
     import flow.record.stream as _stream
+    import flow.record.utils as _utils
 
     got = _os.path.realpath(_fr.__file__)
     if not got.startswith(repo + "/"):
         raise RuntimeError("flow.record imported from %s, expected under %s" % (got, repo))
-    fr, base, stream_mod = _fr, _base, _stream
+    fr, base, stream_mod, utils_mod = _fr, _base, _stream, _utils
 
     # Permanent clock seam: every record class generated from now on stamps _generated through
     # this hook, which consults the active World (or the real clock when none is active).
@@ -171,6 +172,13 @@ def _replace(src, dst, *a, **k):
     return _os.replace(src, dst, *a, **k)
 
 
+def _fstat(fd, *a, **k):
+    w = CURRENT
+    if w is not None and isinstance(fd, int) and fd in w.fs.fds:
+        return w.fs.fstat(fd)
+    return _os.fstat(fd, *a, **k)
+
+
 _PATH_PROXY = _Proxy(
     _os.path,
     {
@@ -191,6 +199,7 @@ _OS_PROXY = _Proxy(
         "remove": _route("remove", _os.remove),
         "unlink": _route("unlink", _os.unlink),
         "listdir": _route("listdir", _os.listdir),
+        "fstat": _fstat,
     },
 )
 _DT_PROXY = _Proxy(_dt, {"datetime": _SimDateTime})
@@ -266,6 +275,7 @@ class World:
             "bz2_open": bz2._builtin_open,
             "stream_os": stream_mod.os,
             "base_os": base.os,
+            "utils_os": utils_mod.os,
             "stream_dt": stream_mod.datetime,
             "gzip_time": gzip.time,
             "stdin": sys.stdin,
@@ -284,6 +294,7 @@ class World:
         bz2._builtin_open = _sim_open
         stream_mod.os = _OS_PROXY
         base.os = _OS_PROXY
+        utils_mod.os = _OS_PROXY
         stream_mod.datetime = _DT_PROXY
         gzip.time = _TIME_PROXY
         # caches that hold descriptors / classes: a run must not depend on earlier runs
@@ -315,6 +326,7 @@ class World:
         bz2._builtin_open = s["bz2_open"]
         stream_mod.os = s["stream_os"]
         base.os = s["base_os"]
+        utils_mod.os = s["utils_os"]
         stream_mod.datetime = s["stream_dt"]
         gzip.time = s["gzip_time"]
         sys.stdin = s["stdin"]
@@ -351,6 +363,28 @@ class World:
         self.keep += [raw, buf, text]
         self.fs.handles.append(raw)
         sys.stdin = text
+        return raw
+
+    def set_stdin_nopeek(self, data, plan=None):
+        """sys.stdin replaced by an object whose .buffer is a bare raw stream (no peek), as embedding code does."""
+        ino = self.fs.new_inode(data)
+        raw = SimRaw(self, ino, "rb", "<stdin>", plan, "stdin")
+        raw.seekable_flag = False
+
+        class _Stdin:
+            buffer = raw
+            encoding = "utf-8"
+
+            def read(self, *a):
+                return raw.read(*a).decode("utf-8", "surrogateescape")
+
+            def isatty(self):
+                return False
+
+        holder = _Stdin()
+        self.keep += [raw, holder]
+        self.fs.handles.append(raw)
+        sys.stdin = holder
         return raw
 
     def set_stdout(self):
